@@ -481,7 +481,19 @@ def isinstance_chains(fn_node):
         branches, cur = [], n
         tail = None
         j = i
+        following = None
         while True:
+            if isinstance(cur.test, ast.UnaryOp) and isinstance(cur.test.op, ast.Not) and not cur.orelse and \
+                    always_leaves(cur.body) and cur is not n and j + 1 < len(body):
+                # `if not isinstance(x, T): raise ...` followed by the rest of the function: the rest is the T branch
+                # and the guard's body is the terminal else
+                synth = ast.If(test=cur.test.operand, body=body[j + 1:], orelse=cur.body)
+                ast.copy_location(synth, cur)
+                branches.append(synth)
+                used.add(id(cur))
+                tail = cur.body
+                following = []
+                break
             branches.append(cur)
             used.add(id(cur))
             if len(cur.orelse) == 1 and isinstance(cur.orelse[0], ast.If) and \
@@ -495,7 +507,7 @@ def isinstance_chains(fn_node):
                 tail = cur.orelse or None
                 break
         if len(branches) >= 2:
-            out.append((subj, branches, tail, n, body[j + 1:]))
+            out.append((subj, branches, tail, n, body[j + 1:] if following is None else following))
     return out
 
 
